@@ -17,6 +17,9 @@ codegen / import machinery:
   (D) "outenc": template shapes that write one / several pieces x a wide
       alphabet of output encodings (stateful encoders included) x error
       policies: render() == render_unicode().encode(enc, errors) on the whole.
+  (E) "tseq": every sequence of <=2 (thorough 3) renders on ONE long-lived
+      Template object where earlier renders may raise part way or be
+      unencodable: every step judged against the closed form / str.encode.
   (C) "seq": every ordered pair of distinct output configurations (encoding x
       error policy) rendered first / second in a pristine process: state kept
       between renders must not leak from one configuration into the next.
@@ -76,7 +79,10 @@ LEVEL_TEXT = (
     "characters of the codec (behind / in front of the declaration) for every codec.  Output side: template shapes writing "
     "one / several pieces (text+expression, loop, def call, buffered def, inheritance) x 11 (thorough 24) output encodings "
     "including encoders that are stateful across the text (utf-16, utf-32, utf-8-sig, iso2022_jp, hz, utf-7) x 4 (7) error "
-    "policies x strings x memory / module file / lookup.  Every ordered pair of distinct output configurations "
+    "policies x strings x memory / module file / lookup.  A coding comment on line 2 (below a '#'-text, '##', blank or "
+    "plain first line) is no declaration: it must neither change the decoding nor swallow the first line.  Histories of "
+    "<=2 (3) renders on one long-lived Template object (directly and through a TemplateLookup collection) whose earlier "
+    "steps may raise part way or fail to encode.  Every ordered pair of distinct output configurations "
     "(2 encodings x 4 error policies, thorough 4 x 7) is rendered first/second in a pristine process.  Complete within "
     "those bounds; no sampling."
 )
@@ -102,6 +108,7 @@ ASSUMPTIONS = [
     "the fresh-process path is executed in batches (one child interpreter per <=400 source cases); the child only opens existing module files (inode must be unchanged)",
     "the correctness of the 'htmlentityreplace' error handler itself is not judged here (C10); occurrences of the b'...' artefact are counted in the evidence",
     "order dependence: workers are long-lived; a failing cell is re-run in a fresh interpreter alone and after the first cell that used each other output configuration / a few recent cells (core.find_prelude); a fresh-process (newproc) failure that disappears when its entry is run in a child of its own is an artefact of batching and only counted",
+    "a coding comment below the first line is content, not a declaration (statement: 'on its first line'): '##' lines vanish, other lines are literal text; first lines containing the word 'coding' are not enumerated",
     "sequence family: the first render of a pristine process and the second one after a different output configuration; longer histories are not enumerated",
     "CPython codecs, tokenize and import are trusted; characters are drawn from pools of interchangeable values by VERIF_SEED",
 ]
@@ -113,6 +120,8 @@ BOUNDS = {
         "bom_lead": "carrier 'lead' x all 12 BOM declaration styles x 20 strings starting with U+FF21/U+FEFF/U+FFFB/U+F000/U+EFFF (+6 ordinary)",
         "seq": "ordered pairs of distinct (encoding, policy) over {ascii, latin-1, utf-16} x {strict, replace, xmlcharrefreplace, htmlentityreplace}: 132, several-write template",
         "nonascii_comment": "coding comment line carrying characters of the codec behind / in front of the declaration x {sole, conflicting input_encoding} x 11 codecs x text carrier x 4 strings x 5 paths x 2 plain outputs",
+        "line2": "coding comment on line 2 ('##' or '#', LF / CRLF) below a '#'-text, '##'-comment, blank or plain-text first line, with input_encoding (comment names another codec) and without (comment names the true codec) x codecs utf-8, koi8-r, shift_jis, latin-1, utf-8+BOM x text carrier x 4 strings x 5 paths x 2 plain outputs",
+        "tseq": "every sequence of 2 steps over 9 steps (render / render_unicode / get_def().render; succeeding, raising part way, not encodable) on ONE Template object x 6 output configurations x {Template, TemplateLookup collection}: 972",
         "outenc": "5 template shapes (one write, text+expr, loop, def call, inheritance) x 11 output encodings (utf-16/32, utf-8-sig, utf-16-le/be, utf-8, ascii, latin-1, shift_jis, iso2022_jp, utf-7) x 4 policies x 4 strings x {memory, module file}: 1760",
         "long_comment": "first line of exactly {40,99,100,101,128,300,1100} bytes x padding after/before the coding: token x {comment, both agreeing, both conflicting, BOM contradicted} x codecs koi8-r, shift_jis, cp1252, utf-8+BOM x text carrier x 4 strings x 5 paths x 2 plain outputs",
     },
@@ -126,6 +135,8 @@ BOUNDS = {
         "long_comment": "as quick for all 11 codecs, a third padding with a non-ASCII character of the codec, BOM contradicted by 3 codecs, carriers text+defattr, 6 strings, 6 paths",
         "seq": "ordered pairs over {ascii, latin-1, cp1252, shift_jis, utf-16, utf-8-sig} x {strict, replace, xmlcharrefreplace, htmlentityreplace, ignore, backslashreplace, namereplace}: 1722",
         "nonascii_comment": "as quick + characters on both sides + agreeing input_encoding, carriers text+defattr, 6 strings, 6 paths",
+        "line2": "as quick for all 11 codecs, all LF/CRLF combinations, also a shebang first line, carriers text+defattr, 6 strings, 6 paths",
+        "tseq": "every sequence of 2 and 3 steps over 11 steps x 11 output configurations x {Template, TemplateLookup collection}: 31944",
         "outenc": "6 shapes (+ buffered def) x 24 output encodings x 7 policies x 6 strings x {memory, module file, TemplateLookup}: 16128",
     },
 }
@@ -281,9 +292,48 @@ def nonascii_comment_decls(codec, tier, seed=0):
     return out
 
 
+LINE2_FIRST = {"hash": "# Release notes", "mako": "## a note", "blank": "", "text": "Release notes", "shebang": "#!/usr/bin/env mako-render"}
+LINE2_CODECS_QUICK = ["utf-8", "koi8-r", "shift_jis", "latin-1", "utf-8-bom"]
+
+
+def line2_decls(codec, tier):
+    """A coding comment that is NOT on the first line is no declaration: ordinary content (text for a single '#', dropped
+    for '##') that must not change the decoding; the first line above it must stay.  name line2-<ie|none>:<first>:<second>:<nl>"""
+    x = true_codec(codec)
+    quick = tier == "quick"
+    if quick and codec not in LINE2_CODECS_QUICK:
+        return []
+    out = []
+    firsts = ["hash", "mako", "blank", "text"] if quick else list(LINE2_FIRST)
+    for first in firsts:
+        for nl in ("lf", "crlf"):
+            if quick and nl == "crlf" and first != "hash":
+                continue
+            e = "\n" if nl == "lf" else "\r\n"
+            for second in ("##", "#"):
+                # with input_encoding = the true codec the later comment names another codec; without input_encoding it
+                # names the true codec (which then must NOT be honoured: UTF-8 is the default)
+                for kind, named, ie in (("ie", _total_other(x), x), ("none", x, None)):
+                    h = LINE2_FIRST[first] + e + "%s -*- coding: %s -*-" % (second, named) + e
+                    out.append(("line2-%s:%s:%s:%s" % (kind, first, second, nl), h, None, ie))
+    return out
+
+
+def header_output(declname, header):
+    """What the lines above the carrier contribute to the output: nothing for a first-line coding comment; for the
+    line2 styles every line that is not a '##' comment line is literal text (documented rules only)."""
+    if not declname.startswith("line2-"):
+        return ""
+    out = []
+    for line in header.splitlines(True):
+        if not line.startswith("##"):
+            out.append(line)
+    return "".join(out)
+
+
 def is_special(declname):
     # declaration styles crossed with a reduced set of carriers / strings / output configurations
-    return declname.startswith(("long-", "nonascii-"))
+    return declname.startswith(("long-", "nonascii-", "line2-"))
 
 
 def decls(codec, tier, seed=0, with_long=True):
@@ -318,6 +368,7 @@ def decls(codec, tier, seed=0, with_long=True):
     if with_long:
         out += long_decls(codec, tier, seed)
         out += nonascii_comment_decls(codec, tier, seed)
+        out += line2_decls(codec, tier)
     return out
 
 
@@ -848,7 +899,7 @@ def run_source_case(codec, decl, carrier, L, outs, paths, env, st, seen=None, li
     case_base = {"kind": "grid", "codec": codec, "decl": declname, "carrier": carrier, "L": L}
     if (declname.startswith("long-") and declname.endswith(":c")) or declname.startswith("nonascii-"):
         case_base["header"] = header  # the comment line carries seed-chosen characters
-    nontriv = bom or any(b >= 0x80 for b in raw) or (cc is not None and ie is not None and codecs.lookup(cc).name != codecs.lookup(ie).name)
+    nontriv = bom or any(b >= 0x80 for b in raw) or (cc is not None and ie is not None and codecs.lookup(cc).name != codecs.lookup(ie).name) or declname.startswith("line2-")
 
     closed = closed_def = ref_u = ref_code = None
     alt_refs = None
@@ -863,7 +914,7 @@ def run_source_case(codec, decl, carrier, L, outs, paths, env, st, seen=None, li
         if Lp is None or text != header + CARRIERS[carrier][0](Lp):
             st.extra.setdefault("harness_errors", []).append("frame not intact for %r" % (case_base,))
             return
-        closed = CARRIERS[carrier][1](Lp)
+        closed = header_output(declname, header) + CARRIERS[carrier][1](Lp)
         closed_def = Lp if carrier == "defattr" else None
         st.evaluations += 1
         st.transitions += 3
@@ -1460,6 +1511,128 @@ def run_outenc(job, st):
 
 
 # --------------------------------------------------------------------------
+# (E) histories on ONE long-lived Template object (also the one a TemplateLookup hands out again): every sequence of
+# <= n steps over an alphabet of renders that succeed, raise part way (after text was written), or cannot be encoded
+# under the configured policy, through render() / render_unicode() / get_def().render().  Every step is judged:
+# an exception of the data must propagate, otherwise render() == render_unicode().encode(enc, errors) and
+# render_unicode() == closed form -- whatever happened before on that object.
+
+TSEQ_TEMPLATE = "[x${a}y${b()}z]<%def name=\"f()\">(${a}|${b()})</%def>\n"
+TSEQ_CONFIGS = {
+    "quick": [(None, "strict"), ("ascii", "strict"), ("ascii", "xmlcharrefreplace"), ("latin-1", "strict"), ("utf-8", "strict"), ("utf-16", "strict")],
+    "thorough": [(None, "strict"), ("ascii", "strict"), ("ascii", "replace"), ("ascii", "xmlcharrefreplace"), ("latin-1", "strict"),
+                 ("latin-1", "htmlentityreplace"), ("utf-8", "strict"), ("utf-16", "strict"), ("utf-8-sig", "strict"), ("shift_jis", "strict"),
+                 ("iso2022_jp", "replace")],
+}
+# step = (api, a-kind, b-kind); a-kind: A ascii / L latin-1 char / W wide char (outside latin-1); b-kind: ok / raise
+TSEQ_STEPS = {
+    "quick": [("render", "A", "ok"), ("render", "L", "ok"), ("render", "W", "ok"), ("render", "A", "raise"), ("render", "W", "raise"),
+              ("render_unicode", "W", "ok"), ("render_unicode", "A", "raise"), ("def.render", "L", "ok"), ("def.render", "A", "raise")],
+    "thorough": [("render", "A", "ok"), ("render", "L", "ok"), ("render", "W", "ok"), ("render", "A", "raise"), ("render", "W", "raise"),
+                 ("render_unicode", "W", "ok"), ("render_unicode", "A", "raise"), ("def.render", "L", "ok"), ("def.render", "W", "ok"),
+                 ("def.render", "A", "raise"), ("def.render_unicode", "W", "ok")],
+}
+TSEQ_POOLS = {"A": ["a", "b", "z", "Q"], "L": ["é", "ß", "ñ", "ü"], "W": ["中", "€", "あ", "ж"]}
+
+
+class _TseqBoom(Exception):
+    pass
+
+
+def tseq_cases(tier, seed):
+    steps = TSEQ_STEPS[tier]
+    n = 2 if tier == "quick" else 3
+    for enc, err in TSEQ_CONFIGS[tier]:
+        for how in ("memory", "lookup"):
+            for k in range(2, n + 1):
+                for seq in itertools.product(range(len(steps)), repeat=k):
+                    yield {"kind": "tseq", "enc": enc, "err": err, "how": how, "steps": [list(steps[i]) for i in seq], "seed": seed}
+
+
+def run_tseq_case(c, env, st):
+    from mako.lookup import TemplateLookup
+    from mako.template import Template
+
+    enc, err, how, seed = c["enc"], c["err"], c["how"], c["seed"]
+    kw = {"output_encoding": enc, "encoding_errors": err} if enc is not None else {}
+    st.states += 1
+    st.nontrivial += 1
+    st.traces += 1
+    st.oracles["tseq_step"] += len(c["steps"])
+    lk = None
+    try:
+        if how == "lookup":
+            lk = TemplateLookup(**kw)
+            lk.put_string("t.html", TSEQ_TEMPLATE)
+            t = lk.get_template("t.html")
+        else:
+            env.count += 1
+            t = Template(TSEQ_TEMPLATE, uri="ts%d" % env.count, **kw)
+    except Exception as e:  # noqa
+        st.extra.setdefault("harness_errors", []).append("tseq template does not compile: %s: %s" % (type(e).__name__, e))
+        return
+    bad = None
+    ocs = []
+    for k, (api, ak, bk) in enumerate(c["steps"]):
+        a = TSEQ_POOLS[ak][(seed + k) % 4] * (1 + k % 2)
+        tail = TSEQ_POOLS["L"][(seed + k + 1) % 4]
+        if bk == "ok":
+            def b(tail=tail):
+                return tail
+        else:
+            def b():
+                raise _TseqBoom("boom")
+        st.evaluations += 1
+        st.transitions += 1
+        if how == "lookup":
+            t = lk.get_template("t.html")  # the long-lived object of the collection
+        obj = t.get_def("f") if api.startswith("def.") else t
+        meth = getattr(obj, api.split(".")[-1])
+        try:
+            got = ("value", meth(a=a, b=b))
+        except _TseqBoom:
+            got = ("raise", "_TseqBoom")
+        except UnicodeError as e:
+            got = ("raise", type(e).__name__)
+        except Exception as e:  # noqa
+            got = ("raise!", type(e).__name__ + ": " + str(e)[:100])
+        closed = ("(%s|%s)" % (a, tail)) if api.startswith("def.") else "[x%sy%sz]\n" % (a, tail)
+        if bk == "raise":
+            exp = ("raise", "_TseqBoom")
+        elif api.endswith("render_unicode"):
+            exp = ("value", closed)
+        else:
+            er = expected_render(closed, enc, err)
+            exp = ("raise", er[1]) if er[0] == "raise" else ("value", er[1])
+        ocs.append(exp[0] if exp[0] == "value" else exp[1])
+        if got != exp:
+            hist = "first render" if k == 0 else "after " + " , ".join(
+                ("a render that raised part way" if s[2] == "raise" else
+                 "a render that could not be encoded" if ocs[i] not in ("value", "_TseqBoom") else "a successful render")
+                for i, s in enumerate(c["steps"][:k]))
+            bad = ("tseq-" + ("render_unicode" if api.endswith("unicode") else "render"), "%s, same Template object: %s" % (api, hist), exp, got)
+            break
+    st.outcomes[("tseq", how, tuple(ocs))] += 1
+    if bad:
+        oracle, detail, expd, obsd = bad
+        sig = "%s|%s" % (oracle, detail)
+        case = dict(c, sig=sig, out=[enc, err])
+        report(st, env, sig, case, oracle, repr(expd), repr(obsd))
+    env.total += 1
+    if env.total % 307 == 1:
+        st.sample(dict(c))
+
+
+def run_tseq(job, st):
+    env = Env()
+    env.search = True
+    for c in job["cases"]:
+        run_tseq_case(c, env, st)
+    env.drop()
+    st.extra["tseq_cases"] = len(job["cases"])
+
+
+# --------------------------------------------------------------------------
 # jobs
 
 
@@ -1492,6 +1665,10 @@ def plan(tier, seed):
     nsq = 4 if tier == "quick" else 16
     for i in range(nsq):
         jobs.append({"kind": "seq", "tier": tier, "seed": seed, "cases": sq[i::nsq]})
+    tq = list(tseq_cases(tier, seed))
+    ntq = 4 if tier == "quick" else 16
+    for i in range(ntq):
+        jobs.append({"kind": "tseq", "tier": tier, "seed": seed, "cases": tq[i::ntq]})
     oc = list(outenc_cases(tier, seed))
     noc = 4 if tier == "quick" else 16
     for i in range(noc):
@@ -1511,6 +1688,8 @@ def run_job(job):
             run_seq_batch(job["cases"], st)
         elif job["kind"] == "outenc":
             run_outenc(job, st)
+        elif job["kind"] == "tseq":
+            run_tseq(job, st)
         else:
             run_neg(job, st)
     finally:
@@ -1532,6 +1711,8 @@ def replay(case):
     try:
         if case["kind"] == "seq":
             run_seq_batch([{k: case[k] for k in ("kind", "first", "second", "L")}], st)
+        elif case["kind"] == "tseq":
+            run_tseq_case({k: case[k] for k in ("kind", "enc", "err", "how", "steps", "seed")}, env, st)
         elif case["kind"] == "outenc":
             run_outenc_case({k: case[k] for k in ("kind", "shape", "enc", "err", "L", "how")}, env, st)
         elif case["kind"] == "grid":
